@@ -212,6 +212,8 @@ class Option(Evaluatable[A]):
             _ = self.evaluate(options)
         elif self.default is not MISSING:
             self.default.validate(options)
+            if self.domain is not MISSING:
+                self.domain.validate(options)
         else:
             raise KeyNotFoundError(self.key, self)
 
@@ -223,31 +225,40 @@ class Option(Evaluatable[A]):
         if the default value is an Evaluatable, the keys required by the
         Evaluatable are also returned.
         """
+        # The domain is evaluated against the same options, so its keys count too
+        domain_keys = (
+            self.domain.keys(options) if self.domain is not MISSING else set()
+        )
         if dotted_key_exists(self.key, options):
             value = get_dotted_key(self.key, options)
             return {self.key}.union(
-                *(Template(text).keys(options) for text in _templated_strings(value))
+                domain_keys,
+                *(Template(text).keys(options) for text in _templated_strings(value)),
             )
         elif self.default is not MISSING:
-            return self.default.keys(options)
+            return self.default.keys(options) | domain_keys
         else:
             raise KeyNotFoundError(self.key, self)
 
     def explain(self, options: Optional[Options] = None) -> Set[str]:
         """Returns the keys required by the option."""
         options = options or {}
+        domain_keys = (
+            self.domain.explain(options) if self.domain is not MISSING else set()
+        )
         if dotted_key_exists(self.key, options):
             value = get_dotted_key(self.key, options)
             return {self.key}.union(
+                domain_keys,
                 *(
                     Template(text).explain(options)
                     for text in _templated_strings(value)
-                )
+                ),
             )
         elif self.default is not MISSING:
-            return self.default.explain(options)
+            return self.default.explain(options) | domain_keys
         else:
-            return {self.key}
+            return {self.key} | domain_keys
 
     def __repr__(self) -> str:
         return (
